@@ -252,6 +252,131 @@ enum Shape {
     Named(BTreeMap<String, i32>),
 }
 
+/// Names that are empty, blank or look like numbers — for variants (of data-carrying variants too) and fields.
+#[derive(Serialize, Deserialize, PartialEq, Debug, Clone)]
+enum OddNames {
+    #[serde(rename = "")]
+    Cells(u8, u8),
+    #[serde(rename = " ")]
+    Line { from: u8, #[serde(rename = "")] to: u8 },
+    #[serde(rename = "0")]
+    Zero(i8),
+    #[serde(rename = "null")]
+    Null,
+    #[serde(rename = "\u{0}")]
+    Nul(Vec<u8>),
+}
+
+#[derive(Serialize, Deserialize, PartialEq, Debug, Clone)]
+struct OddFields {
+    #[serde(rename = "")]
+    anon: i32,
+    #[serde(rename = " ")]
+    blank: String,
+    #[serde(rename = "0")]
+    zero: Option<OddNames>,
+    row: Vec<OddNames>,
+}
+
+/// Tuple variants whose trailing fields may be missing: arrays shorter than the variant (one element, none).
+#[derive(Serialize, Deserialize, PartialEq, Debug, Clone)]
+enum Loose {
+    Ver(u32, #[serde(default)] u32),
+    Pair(#[serde(default)] u8, #[serde(default)] u8),
+    Three(String, #[serde(default)] Option<i8>, #[serde(default)] Vec<u8>),
+}
+
+/// Refuses members it does not know, however many of them there are.
+#[derive(Serialize, Deserialize, PartialEq, Debug, Clone)]
+#[serde(deny_unknown_fields)]
+struct Point2 {
+    x: i32,
+    y: i32,
+}
+
+/// Hand-written impls: the `fields` list handed to `deserialize_struct` is only a hint — the visitor decides
+/// which members it understands (a legacy spelling here; every member there).
+#[derive(PartialEq, Debug, Clone)]
+struct Paint {
+    color: Option<String>,
+}
+impl<'de> serde::Deserialize<'de> for Paint {
+    fn deserialize<D: serde::Deserializer<'de>>(d: D) -> Result<Self, D::Error> {
+        struct V;
+        impl<'de> serde::de::Visitor<'de> for V {
+            type Value = Paint;
+            fn expecting(&self, f: &mut std::fmt::Formatter) -> std::fmt::Result {
+                f.write_str("a paint")
+            }
+            fn visit_map<A: serde::de::MapAccess<'de>>(self, mut m: A) -> Result<Paint, A::Error> {
+                let mut color = None;
+                while let Some(k) = m.next_key::<String>()? {
+                    if k == "color" || k == "colour" {
+                        color = Some(m.next_value::<String>()?);
+                    } else {
+                        m.next_value::<serde::de::IgnoredAny>()?;
+                    }
+                }
+                Ok(Paint { color })
+            }
+        }
+        d.deserialize_struct("Paint", &["color"], V)
+    }
+}
+
+#[derive(PartialEq, Debug, Clone)]
+struct KeysSeen(Vec<String>);
+impl<'de> serde::Deserialize<'de> for KeysSeen {
+    fn deserialize<D: serde::Deserializer<'de>>(d: D) -> Result<Self, D::Error> {
+        struct V;
+        impl<'de> serde::de::Visitor<'de> for V {
+            type Value = KeysSeen;
+            fn expecting(&self, f: &mut std::fmt::Formatter) -> std::fmt::Result {
+                f.write_str("a map")
+            }
+            fn visit_map<A: serde::de::MapAccess<'de>>(self, mut m: A) -> Result<KeysSeen, A::Error> {
+                let mut seen = vec![];
+                while let Some(k) = m.next_key::<String>()? {
+                    m.next_value::<serde::de::IgnoredAny>()?;
+                    seen.push(k);
+                }
+                Ok(KeysSeen(seen))
+            }
+            fn visit_seq<A: serde::de::SeqAccess<'de>>(self, mut q: A) -> Result<KeysSeen, A::Error> {
+                let mut n = 0;
+                while q.next_element::<serde::de::IgnoredAny>()?.is_some() {
+                    n += 1;
+                }
+                Ok(KeysSeen(vec![format!("<{} elements>", n)]))
+            }
+        }
+        d.deserialize_struct("KeysSeen", &[], V)
+    }
+}
+
+/// The same through `deserialize_tuple_struct` / `deserialize_tuple` / `deserialize_enum` hints that say less than the data.
+#[derive(PartialEq, Debug, Clone)]
+struct AnyLen(usize);
+impl<'de> serde::Deserialize<'de> for AnyLen {
+    fn deserialize<D: serde::Deserializer<'de>>(d: D) -> Result<Self, D::Error> {
+        struct V;
+        impl<'de> serde::de::Visitor<'de> for V {
+            type Value = AnyLen;
+            fn expecting(&self, f: &mut std::fmt::Formatter) -> std::fmt::Result {
+                f.write_str("a sequence")
+            }
+            fn visit_seq<A: serde::de::SeqAccess<'de>>(self, mut q: A) -> Result<AnyLen, A::Error> {
+                let mut n = 0;
+                while q.next_element::<serde::de::IgnoredAny>()?.is_some() {
+                    n += 1;
+                }
+                Ok(AnyLen(n))
+            }
+        }
+        d.deserialize_tuple(1, V)
+    }
+}
+
 /// A map key whose own `Serialize` refuses.
 #[derive(Debug, Clone, PartialEq, Eq, PartialOrd, Ord)]
 struct RefusingKey(u8);
@@ -492,6 +617,12 @@ fn both<T: Serialize + DeserializeOwned + PartialEq + Debug>(rep: &mut Report, v
 
 fn foreign_pool() -> Vec<Value> {
     vec![
+        json!({"x": 1, "y": 2, "z": 3, "label": "p", "visible": true}), json!({"x": 1, "y": 2, "z": 3}), json!({"x": 1, "y": 2}), json!({"x": 1, "y": 2, "a": 0, "b": 0, "c": 0, "d": 0, "e": 0, "f": 0, "g": 0}),
+        json!({"firstName": "a", "k1": 1, "k2": 2, "k3": 3, "k4": 4, "k5": 5, "k6": 6, "k7": 7, "k8": 8}), json!({"firstName": "a", "nick": "n", "extra": 1}),
+        json!({"kind": "k", "size": 1, "colour": "teal", "weight": 2, "finish": "matt"}), json!({"colour": "teal"}), json!({"color": "red", "colour": "teal", "a": 1, "b": 2}), json!({"a": 1, "b": 2, "c": 3}),
+        json!({"Ver": [7]}), json!({"Ver": [7, 8]}), json!({"Ver": []}), json!({"Pair": []}), json!({"Pair": [1]}), json!({"Pair": [1, 2, 3]}), json!({"Three": ["s"]}), json!({"Three": ["s", null]}), json!({"Three": [1]}), json!({"Ver": 7}),
+        json!({"": [3, 4]}), json!({" ": {"from": 1, "": 2}}), json!({"0": -1}), json!("null"), json!({"\u{0}": [1, 2]}), json!([3, 4]), json!({"Cells": [3, 4]}), json!({"": 5, " ": "b", "0": null, "row": [{"": [1, 2]}, "null"]}),
+        json!({"": 5, " ": "b", "0": {"0": 7}, "row": []}), json!([1, 2, 3, 4, 5, 6, 7, 8, 9]),
         json!(null), json!(true), json!(false), json!(0), json!(1), json!(-1), json!(1.5), json!(1.0), json!(127), json!(128), json!(255), json!(256), json!(-129),
         json!(300), json!(70000), json!(5000000000u64), json!(-5000000000i64), json!(9223372036854775808u64), json!(18446744073709551615u64), json!(1e40),
         json!(""), json!("a"), json!("ab"), json!("Unit"), json!("Newtype"), json!("C"), json!("é"), json!("\u{1F600}"),
@@ -557,6 +688,7 @@ pub fn run(args: &Args) {
                 [u8; 0] => "[u8;0]", std::path::PathBuf => "PathBuf", Box<Option<i16>> => "Box<Option<i16>>", std::num::Wrapping<u8> => "Wrapping<u8>",
                 Option<Vec<Option<(bool, char)>>> => "Option<Vec<Option<(bool,char)>>>", (Version, Color) => "(Version,Color)", Vec<Version> => "Vec<Version>", Cmd => "Cmd", Vec<Cmd> => "Vec<Cmd>", Option<Cmd> => "Option<Cmd>", ScoreReport => "ScoreReport", Shape => "Shape", Vec<Shape> => "Vec<Shape>",
                 std::ffi::CString => "CString", Box<std::ffi::CStr> => "Box<CStr>", Blobish => "Blobish", Vec<Blobish> => "Vec<Blobish>", BTreeMap<String, Blobish> => "BTreeMap<String,Blobish>",
+                Loose => "Loose", Vec<Loose> => "Vec<Loose>", OddNames => "OddNames", OddFields => "OddFields", Vec<OddNames> => "Vec<OddNames>", Point2 => "Point2", Paint => "Paint", KeysSeen => "KeysSeen", AnyLen => "AnyLen", Vec<Point2> => "Vec<Point2>",
                 std::ffi::OsString => "OsString", Box<str> => "Box<str>", std::rc::Rc<str> => "Rc<str>", std::borrow::Cow<'static, [u8]> => "Cow<[u8]>",
             );
         }
@@ -581,6 +713,27 @@ pub fn run(args: &Args) {
             36 => {
                 let v = DupMap((0..r.below(5) + 1).map(|_| (["a", "b", "a"][r.below(3)].to_string(), gi::<i32>(r, -9, 9))).collect());
                 check_ser(&mut rep, &v, "DupMap(duplicate keys)");
+            }
+            48 if i % 2 == 0 => {
+                let pick = |r: &mut Rng| [OddNames::Cells(gi(r, 0, 9), gi(r, 0, 9)), OddNames::Line { from: gi(r, 0, 9), to: gi(r, 0, 9) }, OddNames::Zero(gi(r, -9, 9)), OddNames::Null, OddNames::Nul(vec![gi(r, 0, 255)])][r.below(5)].clone();
+                let v = pick(r);
+                both(&mut rep, &v, "OddNames", &ident);
+                let f = OddFields { anon: gi(r, -9, 9), blank: gstr(r), zero: if r.chance(1, 2) { Some(pick(r)) } else { None }, row: (0..r.below(4)).map(|_| pick(r)).collect() };
+                both(&mut rep, &f, "OddFields", &ident);
+                // reached through an expression: the member named "" of the typed value, as of its JSON text
+                let row = json!({"span": serde_json::to_value(&v).unwrap()});
+                #[derive(Serialize)]
+                struct Row<'a> { span: &'a OddNames }
+                for text in ["span.\"\"", "span.\"\"[1]", "span.\" \".\"\"", "span.\"0\"", "keys(span)", "span"] {
+                    rep.evaluations += 1;
+                    let want = jmespath::compile(text).and_then(|e| e.search(rcvar_of(&row))).map(|x| x.to_string());
+                    let got = guarded(|| jmespath::compile(text).and_then(|e| e.search(&Row { span: &v })).map(|x| x.to_string()));
+                    match (&want, &got) {
+                        (Ok(a), Ok(Ok(b))) if a == b => rep.count("search_typed_value_ok"),
+                        (Err(_), Ok(Err(_))) => rep.count("search_typed_value_ok"),
+                        _ => rep.violation("C14/search-of-typed-value-differs/OddNames", json!({"expression": text, "json": row, "on_the_json": format!("{:?}", want), "on_the_typed_value": format!("{:?}", got)})),
+                    }
+                }
             }
             46 => both(
                 &mut rep,
